@@ -302,7 +302,16 @@ fn write_all_or_nothing(dest: &Path, bytes: &[u8]) -> std::io::Result<()> {
     // A short name of its own: a suffix on the destination's name would be too long for names
     // close to the file system's limit
     let tmp = dest.with_file_name(format!(".lace-tmp{}", std::process::id()));
-    let result = write(&tmp, bytes).and_then(|()| fs::rename(&tmp, &dest));
+    // Never through a name that already exists (a stale symlink of that name could point anywhere,
+    // for one at the destination itself)
+    let mut file = fs::OpenOptions::new()
+        .write(true)
+        .create_new(true)
+        .open(&tmp)?;
+    let result = file
+        .write_all(bytes)
+        .and_then(|()| file.flush())
+        .and_then(|()| fs::rename(&tmp, &dest));
     if result.is_err() {
         let _ = fs::remove_file(&tmp);
     }
